@@ -7,6 +7,7 @@ from .. import paths
 from ..core import FUNC, call_attr, calls_in, const, dotted, is_const, kwarg, norm, text, walk_local
 
 EXPLANATION = [
+    'C11.except-name: no name bound by `except ... as name` is read after its handler: Python deletes it when the handler ends, so the read raises UnboundLocalError exactly when the exception was caught.',
     "C11.authenticated-source: every assignment to a connection's `authenticated` flag in bumble.device derives from the strength of the key in use (pairing method, key's authenticated flag, link-key type) or is guarded by such a test; BR/EDR-only sites are named exceptions. OPEN FINDINGS on the current tree: Device.on_pairing and the LE branch of Device.on_connection_encryption_change assign True unconditionally.",
     'C11.declared-permissions: Server.add_service registers the very objects the application declared (no loop variable over declared descriptors / characteristics is rebound before add_attribute) and builds attributes of its own, with default permissions, only under the test that the application declared none.',
     'C11.gate: in Attribute.read_value / write_value every path that reaches the value access has evaluated, for each requirement '
@@ -415,7 +416,13 @@ def authenticated_source(ctx):
     R.check(n >= 2, rule, 'bumble.device | writers of Connection.authenticated', f'{n} assignments examined', f'only {n} assignments found')
 
 
+def except_name_rule(ctx):
+    from ..generic_rules import except_name_escape
+    except_name_escape(ctx, 'C11.except-name', ['bumble.gatt_server', 'bumble.att', 'bumble.gatt'])
+
+
 RULES = [
+    ('C11.except-name', except_name_rule),
     ('C11.authenticated-source', authenticated_source),
     ('C11.declared-permissions', declared_permissions),
     ('C11.gate', gate),
